@@ -3938,7 +3938,10 @@ def _check_dependents_are_predicates(
         )
 
         if not allow_reduction:
-            if isinstance(e, (ApplyConcatApply, TreeReduce, ShuffleReduce)):
+            if isinstance(e, (ApplyConcatApply, TreeReduce, ShuffleReduce)) and any(
+                x._name == expr._name for x in e.walk()
+            ):
+                # Only reductions over expr itself change when rows are removed
                 return False
 
         if _is_order_dependent(e):
